@@ -81,7 +81,7 @@ def main() -> int:
         ok = ok and hit
         shutil.rmtree(d, ignore_errors=True)
     # ---- the other self-contained models: must hold as configured
-    for mod in ("MC_Pool", "Deps", "Faults", "Variants", "Gen_Sites", "LinePipe", "XmlDocs", "MC_ExprRewrite", "WithScope", "SqlParam"):
+    for mod in ("MC_Pool", "Deps", "Faults", "Variants", "Gen_Sites", "LinePipe", "XmlDocs", "MC_ExprRewrite", "WithScope", "SqlParam", "WalrusIf"):
         r = tlc.run_tlc(spec, mod, f"{mod}.cfg", timeout=900)
         print(f"tlc  {'ok  ' if not r.violated else 'FAIL'} {mod}: {r.distinct} states, {r.wall_s:.1f}s {[v[1] for v in r.violated][:2]}")
         ok = ok and not r.violated
@@ -112,6 +112,15 @@ def main() -> int:
             print(f"  SqlParam rule variant {variant}: {inv} {'refuted' if hit else 'NOT REFUTED'}")
             ok = ok and hit
         shutil.rmtree(d, ignore_errors=True)
+    # ---- non-vacuity of WalrusIf.tla: the rule of the pinned commit must be refuted
+    d = scratch("walrusbug")
+    shutil.copy(spec / "WalrusIf.tla", d / "WalrusIf.tla")
+    (d / "WalrusIf.cfg").write_text((spec / "WalrusIf.cfg").read_text().replace('RuleVariant = "tree"', 'RuleVariant = "pinned"'))
+    r = tlc.run_tlc(d, "WalrusIf", "WalrusIf.cfg", timeout=300, cont=True)
+    hit = any(v[1] == "C08_DropsOnlyUnreadBindings" for v in r.violated)
+    print(f"  WalrusIf rule of the pinned commit: {'refuted' if hit else 'NOT REFUTED'}")
+    ok = ok and hit
+    shutil.rmtree(d, ignore_errors=True)
     # ---- the trace specification rejects a corrupted trace (binding bites)
     from . import tracecheck
 
